@@ -1,5 +1,6 @@
 import AvoVerif.Props.C09
 import AvoVerif.Props.C09Tables
+import AvoVerif.Props.C09Accept
 #print axioms Avo.Func.ltLoop_ok_iff
 #print axioms Avo.Func.labelTarget_ok_iff
 #print axioms Avo.Func.labelTarget_spec
@@ -11,3 +12,8 @@ import AvoVerif.Props.C09Tables
 #print axioms Avo.Func.features_are_x86_classes
 #print axioms Avo.Func.rel_operand_opcodes
 #print axioms Avo.Func.buildCFG_succ_in_range
+#print axioms Avo.Func.buildCFG_pred_iff
+#print axioms Avo.Func.buildCFG_succ_iff
+#print axioms Avo.Func.buildCFG_meets
+#print axioms Avo.Func.acceptCFG_sound
+#print axioms Avo.Func.acceptCFG_complete
